@@ -70,7 +70,11 @@ impl StreamHandler for TcpProxyHandler {
             );
 
             // Check if this is a UDP over TCP request
-            if destination.addr.contains("udp-over-tcp.arpa") {
+            // Only the exact magic names select the UDP handler; an ordinary host
+            // whose name merely contains the string is a TCP destination.
+            if destination.addr == "sp.v2.udp-over-tcp.arpa"
+                || destination.addr == "sp.udp-over-tcp.arpa"
+            {
                 tracing::debug!("[Proxy] Detected UDP over TCP request");
                 if peer_version >= 2 {
                     tracing::debug!(
